@@ -60,7 +60,21 @@ def main() -> int:
     except core.InfraError as e:
         print(f'[{pid}] infrastructure failure: {e}', file=sys.stderr)
         return 2
-    except Exception:
+    except Exception as e:
+        # An exception that comes out of the library under check (a frame of its source is on the stack) on an input no stream
+        # expected to be rejected is reported as what it is — the library failing on a generated input — with the traceback
+        # as the replay, instead of ending the run as an infrastructure failure.
+        tb = traceback.extract_tb(e.__traceback__)
+        lib = [f for f in tb if f.filename.startswith(str(core.REPO) + os.sep)]
+        if lib and not a.replay and 'mod' in locals() and 'proof' in locals():
+            where = f'{pathlib.Path(lib[-1].filename).name}:{lib[-1].lineno} in {lib[-1].name}'
+            ctx.fail('spec', 'exception', {'last_case_seen': ctx.last_case, 'traceback': traceback.format_exc()[-3000:]},
+                     f'the library raised {type(e).__name__}: {e} ({where}) where the check expected a result', 'raised:uncaught')
+            rc = core.conclude(ctx, mod, proof)
+            core.write_evidence(ctx, proof, mod.RULE, mod.ASSUMPTIONS, 1, extra={'regen': proof.get('regen', {})})
+            print(f'[{pid}] tier={a.tier} seed={seed} proof_ok={proof.get("ok")} evaluations={ctx.evaluations} failures={len(ctx.failures)} '
+                  f'(the library raised where the check expected a result) rc={rc}')
+            return rc
         traceback.print_exc()
         print(f'[{pid}] infrastructure failure (unexpected exception in the harness)', file=sys.stderr)
         return 2
